@@ -16,6 +16,7 @@ EXPLANATION = (
     "Also decided: serialising a value never writes to it; the registry is per daemon; unknown ids can never reach a result reply; the auto-proxy hook is installed on both registration branches; a dead weak reference is recognised by identity with None; blob calls name the call's object id; a proxy refuses an object as exposing nothing only when it has neither methods nor attributes. "
     "Also decided (round 7): After the registry store nothing in register() can raise; the handshake's lookup treats exactly None as unknown. "
     'Also decided (round 8): No helper of the serializers module reached from the serialisation entry points writes into the state it is handed. '
+    'Also decided (round 10): The default method-call error handler stores none of its arguments (an exception keeps the called object alive through its traceback: a weak registration would never end); the URI parser takes the object part verbatim (shared from C19). '
     'Also decided (round 9): A forced registration replaces the entry with one store (register removes nothing first). '
     "Not decided: identity of the object reached through a proxy, GC timing."
 )
